@@ -1,0 +1,107 @@
+//go:build verif
+
+package rest
+
+import (
+	"net/http"
+
+	"github.com/inbucket/inbucket/v3/pkg/message"
+	"github.com/inbucket/inbucket/v3/pkg/server/web"
+	"github.com/inbucket/inbucket/v3/pkg/storage"
+)
+
+var _ message.Manager
+var _ web.Context
+var _ = storage.ErrNotExist
+
+// Ghost response state (owned by the assumed contracts of net/http).
+func ghost_status(w http.ResponseWriter) int { panic("ghost") }
+
+// ---------------------------------------------------------------------------------------------
+// C14: the REST v1 handlers report and change exactly what the manager holds.
+
+//@ pred spec_reqOK(w http.ResponseWriter, req *http.Request, ctx *web.Context) bool = w != nil && req != nil && ctx != nil && ctx.Manager != nil
+
+//@ pred spec_noMutation(m message.Manager, ms int, pu int, rm int) bool =
+//@     message.Ghost_nMarkSeen(m) == ms && message.Ghost_nPurge(m) == pu && message.Ghost_nRemove(m) == rm
+
+// List: one GetMetadata call for the canonical name; every element of the answer copies the
+// metadata entry at the same index (order preserved); nothing is changed.
+//@ func MailboxListV1
+//@   requires spec_reqOK(w, req, ctx)
+//@   modifies *
+//@   ensures[readOnly] spec_noMutation(ctx.Manager, old(message.Ghost_nMarkSeen(ctx.Manager)), old(message.Ghost_nPurge(ctx.Manager)), old(message.Ghost_nRemove(ctx.Manager)))
+//@   ensures[oneCall] message.Ghost_nGetMeta(ctx.Manager) <= old(message.Ghost_nGetMeta(ctx.Manager)) + 1 &&
+//@      (message.Ghost_nGetMeta(ctx.Manager) == old(message.Ghost_nGetMeta(ctx.Manager)) + 1 ==> message.Ghost_argBox(ctx.Manager) == message.Ghost_lastName(ctx.Manager))
+//@   loop 1: invariant 0 <= ridx && ridx <= len(messages) && len(jmessages) == len(messages) && vcFresh(jmessages)
+//@   loop 1: invariant forall k int :: { jmessages[k] } 0 <= k && k < ridx ==> jmessages[k] != nil && vcFresh(jmessages[k]) &&
+//@      jmessages[k].Mailbox == name && jmessages[k].ID == messages[k].ID && jmessages[k].Subject == messages[k].Subject &&
+//@      jmessages[k].Size == messages[k].Size && jmessages[k].Seen == messages[k].Seen && jmessages[k].Date == messages[k].Date
+//@   loop 1: after[fieldsCopied] forall k int :: { jmessages[k] } 0 <= k && k < len(messages) ==> jmessages[k] != nil &&
+//@      jmessages[k].Mailbox == name && jmessages[k].ID == messages[k].ID && jmessages[k].Subject == messages[k].Subject &&
+//@      jmessages[k].Size == messages[k].Size && jmessages[k].Seen == messages[k].Seen && jmessages[k].Date == messages[k].Date
+//@   loop 1: decreases len(messages) - ridx
+//@   serves C14
+
+// Show: one GetMessage call with the canonical name and the id from the URL; a message that does
+// not exist is answered 404; no nil dereference; nothing is changed.
+//@ func MailboxShowV1
+//@   requires spec_reqOK(w, req, ctx)
+//@   modifies *
+//@   ensures[readOnly] spec_noMutation(ctx.Manager, old(message.Ghost_nMarkSeen(ctx.Manager)), old(message.Ghost_nPurge(ctx.Manager)), old(message.Ghost_nRemove(ctx.Manager)))
+//@   ensures[oneCall] message.Ghost_nGetMsg(ctx.Manager) <= old(message.Ghost_nGetMsg(ctx.Manager)) + 1 &&
+//@      (message.Ghost_nGetMsg(ctx.Manager) == old(message.Ghost_nGetMsg(ctx.Manager)) + 1 ==>
+//@         message.Ghost_argBox(ctx.Manager) == message.Ghost_lastName(ctx.Manager) && message.Ghost_argID(ctx.Manager) == ctx.Vars["id"])
+//@   ensures[missing404] message.Ghost_nGetMsg(ctx.Manager) == old(message.Ghost_nGetMsg(ctx.Manager)) + 1 && message.Ghost_lastErr(ctx.Manager) == storage.ErrNotExist ==>
+//@      err == nil && ghost_status(w) == 404
+//@   loop 1: invariant 0 <= ridx && ridx <= len(attachParts) && len(attachments) == len(attachParts) && vcFresh(attachments) && message.Spec_msgOK(msg)
+//@   loop 1: invariant message.Ghost_nGetMsg(ctx.Manager) == old(message.Ghost_nGetMsg(ctx.Manager)) + 1 && message.Ghost_lastErr(ctx.Manager) != storage.ErrNotExist &&
+//@      message.Ghost_argBox(ctx.Manager) == message.Ghost_lastName(ctx.Manager) && message.Ghost_argID(ctx.Manager) == ctx.Vars["id"] &&
+//@      spec_noMutation(ctx.Manager, old(message.Ghost_nMarkSeen(ctx.Manager)), old(message.Ghost_nPurge(ctx.Manager)), old(message.Ghost_nRemove(ctx.Manager)))
+//@   loop 1: decreases len(attachParts) - ridx
+//@   serves C14
+
+// MarkSeen: MarkSeen(name, id) is called exactly when the body says seen=true; ErrNotExist is 404.
+//@ func MailboxMarkSeenV1
+//@   requires spec_reqOK(w, req, ctx)
+//@   modifies *
+//@   ensures[onlyMarkSeen] message.Ghost_nPurge(ctx.Manager) == old(message.Ghost_nPurge(ctx.Manager)) && message.Ghost_nRemove(ctx.Manager) == old(message.Ghost_nRemove(ctx.Manager)) &&
+//@      message.Ghost_nMarkSeen(ctx.Manager) <= old(message.Ghost_nMarkSeen(ctx.Manager)) + 1
+//@   ensures[args] message.Ghost_nMarkSeen(ctx.Manager) == old(message.Ghost_nMarkSeen(ctx.Manager)) + 1 ==>
+//@      message.Ghost_argBox(ctx.Manager) == message.Ghost_lastName(ctx.Manager) && message.Ghost_argID(ctx.Manager) == ctx.Vars["id"]
+//@   ensures[missing404] message.Ghost_nMarkSeen(ctx.Manager) == old(message.Ghost_nMarkSeen(ctx.Manager)) + 1 && message.Ghost_lastErr(ctx.Manager) == storage.ErrNotExist ==>
+//@      err == nil && ghost_status(w) == 404
+//@   serves C14
+
+// Purge: exactly one PurgeMessages(name).
+//@ func MailboxPurgeV1
+//@   requires spec_reqOK(w, req, ctx)
+//@   modifies *
+//@   ensures[onlyPurge] message.Ghost_nMarkSeen(ctx.Manager) == old(message.Ghost_nMarkSeen(ctx.Manager)) && message.Ghost_nRemove(ctx.Manager) == old(message.Ghost_nRemove(ctx.Manager)) &&
+//@      message.Ghost_nPurge(ctx.Manager) <= old(message.Ghost_nPurge(ctx.Manager)) + 1
+//@   ensures[args] message.Ghost_nPurge(ctx.Manager) == old(message.Ghost_nPurge(ctx.Manager)) + 1 ==> message.Ghost_argBox(ctx.Manager) == message.Ghost_lastName(ctx.Manager)
+//@   serves C14
+
+// Source: one SourceReader(name, id); ErrNotExist is 404; nothing is changed.
+//@ func MailboxSourceV1
+//@   requires spec_reqOK(w, req, ctx)
+//@   modifies *
+//@   ensures[readOnly] spec_noMutation(ctx.Manager, old(message.Ghost_nMarkSeen(ctx.Manager)), old(message.Ghost_nPurge(ctx.Manager)), old(message.Ghost_nRemove(ctx.Manager)))
+//@   ensures[oneCall] message.Ghost_nSource(ctx.Manager) <= old(message.Ghost_nSource(ctx.Manager)) + 1 &&
+//@      (message.Ghost_nSource(ctx.Manager) == old(message.Ghost_nSource(ctx.Manager)) + 1 ==>
+//@         message.Ghost_argBox(ctx.Manager) == message.Ghost_lastName(ctx.Manager) && message.Ghost_argID(ctx.Manager) == ctx.Vars["id"])
+//@   ensures[missing404] message.Ghost_nSource(ctx.Manager) == old(message.Ghost_nSource(ctx.Manager)) + 1 && message.Ghost_lastErr(ctx.Manager) == storage.ErrNotExist ==>
+//@      err == nil && ghost_status(w) == 404
+//@   serves C14 C02
+
+// Delete: exactly one RemoveMessage(name, id); ErrNotExist is 404.
+//@ func MailboxDeleteV1
+//@   requires spec_reqOK(w, req, ctx)
+//@   modifies *
+//@   ensures[onlyRemove] message.Ghost_nMarkSeen(ctx.Manager) == old(message.Ghost_nMarkSeen(ctx.Manager)) && message.Ghost_nPurge(ctx.Manager) == old(message.Ghost_nPurge(ctx.Manager)) &&
+//@      message.Ghost_nRemove(ctx.Manager) <= old(message.Ghost_nRemove(ctx.Manager)) + 1
+//@   ensures[args] message.Ghost_nRemove(ctx.Manager) == old(message.Ghost_nRemove(ctx.Manager)) + 1 ==>
+//@      message.Ghost_argBox(ctx.Manager) == message.Ghost_lastName(ctx.Manager) && message.Ghost_argID(ctx.Manager) == ctx.Vars["id"]
+//@   ensures[missing404] message.Ghost_nRemove(ctx.Manager) == old(message.Ghost_nRemove(ctx.Manager)) + 1 && message.Ghost_lastErr(ctx.Manager) == storage.ErrNotExist ==>
+//@      err == nil && ghost_status(w) == 404
+//@   serves C14
